@@ -17,3 +17,19 @@ def sig(b):
 names = dict((b['path'], sig(b)) for b in j['bodies'] if b['kind'] != 'Closure')
 json.dump(names, open(os.path.join(VERIF, 'rules', 'known_functions.json'), 'w'), indent=0, sort_keys=True)
 print(len(names), 'functions recorded from', facts)
+
+# closures of the reference tree: top-level function -> std combinators that receive one of its closures
+sys.path.insert(0, os.path.join(VERIF, 'rules'))
+import desugar
+raw = dict((b['path'], b) for b in j['bodies'])
+seen = {}
+def rec(cpath, kind, body):
+    root = raw[cpath].get('root') or cpath
+    seen.setdefault(root, set()).add(kind)
+    return False
+ds = desugar.Desugarer(raw, rec)
+for b in j['bodies']:
+    ds.run(b)
+json.dump(dict((k, sorted(v)) for k, v in seen.items()), open(os.path.join(VERIF, 'rules', 'known_closures.json'), 'w'),
+          indent=0, sort_keys=True)
+print(sum(len(v) for v in seen.values()), 'closure/combinator pairs recorded in', len(seen), 'functions')
